@@ -1,0 +1,60 @@
+//go:build verif
+
+package align
+
+import "fmt"
+
+// VerifInvariants walks the private state of a *seqbag / *align at a quiescent
+// point and reports disagreements between the ordered row list, the name index
+// and (for alignments) the cached length. Only compiled with the verif build
+// tag; used by the runtime monitors under /verif.
+func VerifInvariants(x interface{}) (problems []string) {
+	var sb *seqbag
+	length := -2
+	switch v := x.(type) {
+	case *align:
+		sb = &v.seqbag
+		length = v.length
+	case *seqbag:
+		sb = v
+	default:
+		return []string{fmt.Sprintf("VerifInvariants: unsupported type %T", x)}
+	}
+	byname := make(map[string][]*seq)
+	for i, s := range sb.seqs {
+		if s == nil {
+			problems = append(problems, fmt.Sprintf("row %d is nil", i))
+			continue
+		}
+		byname[s.name] = append(byname[s.name], s)
+		if length != -2 && len(s.sequence) != length {
+			problems = append(problems, fmt.Sprintf("row %d (%q) has %d residues, cached length is %d", i, s.name, len(s.sequence), length))
+		}
+	}
+	for name, rows := range byname {
+		idx, ok := sb.seqmap[name]
+		if !ok {
+			problems = append(problems, fmt.Sprintf("row name %q is missing from the name index", name))
+			continue
+		}
+		found := false
+		for _, r := range rows {
+			if r == idx {
+				found = true
+			}
+		}
+		if !found {
+			problems = append(problems, fmt.Sprintf("name index entry %q points to a row that does not carry that name", name))
+		}
+	}
+	for name, s := range sb.seqmap {
+		if _, ok := byname[name]; !ok {
+			cur := "<nil>"
+			if s != nil {
+				cur = s.name
+			}
+			problems = append(problems, fmt.Sprintf("name index holds %q (row now named %q) but no row carries that name", name, cur))
+		}
+	}
+	return
+}
